@@ -212,6 +212,15 @@ def gen_range_cases(c):
             for t in itertools.product((x, d), repeat=n):
                 for s in ((b"2", b"1,3", b"2-") if c.volume == "quick" else (b"1", b"2", b"1,3", b"2-", b"-2", b"2-3")):
                     cases.append((d, s, bytes(t)))
+    # many fields: field numbers around 2^8 and 2^16 (an index kept in a narrower type would wrap)
+    for nf in (300, 70000):
+        fields = [bytes([97 + (i % 26)]) + (b"%d" % i if i % 1000 == 0 else b"") for i in range(nf)]
+        for d in (9, 44):
+            line = bytes([d]).join(fields)
+            for s in ([b"255", b"256", b"257", b"255-257", b"1,256", b"300", b"301", b"299-", b"2,257-258,300"] if nf == 300 else
+                      [b"65535", b"65536", b"65537", b"65535-65537", b"1,65536", b"70000", b"70001", b"69999-", b"256,65536-65537"]):
+                cases.append((d, s, line))
+                cases.append((d, s, line + bytes([d])))
     # random: longer lines, other delimiters (incl. bytes >= 0x80), larger field numbers, multi-byte content
     delims = [9, 32, 44, 0x7C, 0xFF, 0x80, 1]
     for _ in range(4000 if c.volume == "quick" else 40000):
@@ -313,6 +322,12 @@ def main(argv):
         c.volume = "thorough"   # the shape of the code changed: the tie rests on the correspondence run, so make it the big one
     if c.tier == "thorough":
         coqchk(c)
+    # cross-property instances (Fields/KeyInstances.v plugs the real key functions into the C01 / C06 / C04 tool models);
+    # recorded in the evidence, not one of C10's own obligations (it also depends on other properties' model files)
+    ok_inst, ilog = coq_make(["theories/Fields/KeyInstances.vo"], timeout=900)
+    c.cov["key_instances_for_C01_C06_C04"] = "compiled" if ok_inst else ("FAILED: " + " ".join(ilog.split())[-300:])
+    if not ok_inst:
+        log("  note: Fields/KeyInstances.v did not compile: " + " ".join(ilog.split())[-300:])
     drv, dlog = build_driver("C10")
     impl = hx_bin("hx_fields")
     os.makedirs(SCRATCH, exist_ok=True)
@@ -500,6 +515,32 @@ def main(argv):
             c.violation("tool/dedupe-key: dedupe -f %s -d %r on lines %r and %r printed %r (status %s); their selected fields are %s so the second line must be %s" % (
                 spec.decode(), dl, l1, l2, so, st, "identical" if same else "different", "dropped" if same else "kept"),
                 {"op": "dedupe", "kind": "pair", "args": ["-f", spec.decode(), "-d", dl.decode("latin1")], "actual_args": dargs, "stdin_hex": hexs(data), "stdout_hex": hexs(so), "expected_hex": hexs(want)})
+    # dedupe in parallel mode (four files) uses the same field keys on both sides: with all-distinct right lines the
+    # second pair is kept exactly when the left lines' selected fields differ
+    for n_, (spec, d, l1, l2, same) in enumerate(pairs[:30 if c.volume == "quick" else 200]):
+        dl = bytes([d])
+        if l1 == l2:
+            continue
+        need = 12
+        r1 = dl.join(b"r1f%d" % j for j in range(need))
+        r2 = dl.join(b"r2f%d" % j for j in range(need))
+        fl, fr, ol, orr = [os.path.join(SCRATCH, x) for x in ("par_l", "par_r", "par_lo", "par_ro")]
+        open(fl, "wb").write(l1 + b"\n" + l2 + b"\n")
+        open(fr, "wb").write(r1 + b"\n" + r2 + b"\n")
+        st, so, se = run_tool([repo_bin("dedupe"), "-f", spec.decode(), "-d", dl.decode("latin1"), fl, fr, ol, orr], timeout=60)
+        c.count(("parallel", spec, d, l1, l2), bucket="tool/dedupe-parallel")
+        c.cov["traces_validated_against_impl"] += 1
+        gl = open(ol, "rb").read() if os.path.exists(ol) else b""
+        gr = open(orr, "rb").read() if os.path.exists(orr) else b""
+        wl = l1 + b"\n" + (b"" if same else l2 + b"\n")
+        wr = r1 + b"\n" + (b"" if same else r2 + b"\n")
+        if st != 0 or gl != wl or gr != wr:
+            c.violation("tool/dedupe-parallel-key: dedupe -f %s -d %r in_l in_r out_l out_r with left lines %r, %r (selected fields %s) wrote left %r right %r (status %s)" % (
+                spec.decode(), dl, l1, l2, "identical" if same else "different", gl, gr, st),
+                {"op": "dedupe", "kind": "parallel", "args": ["-f", spec.decode(), "-d", dl.decode("latin1"), "in_l", "in_r", "out_l", "out_r"],
+                 "left_hex": hexs(l1 + b"\n" + l2 + b"\n"), "right_hex": hexs(r1 + b"\n" + r2 + b"\n"), "out_left_hex": hexs(gl), "expected_left_hex": hexs(wl)})
+            break
+
     for spec, d, l1, l2, same in pairs[:40 if c.volume == "quick" else 300]:
         dl = bytes([d])
         data = l1 + b"\n" + l2 + b"\n"
@@ -523,7 +564,7 @@ def main(argv):
                             {"op": "shard", "kind": "pair", "args": ["-f", spec.decode(), "-d", dl.decode("latin1")], "stdin_hex": hexs(data), "files": where})
     # shard -f: the file a line lands in is hash_fold(seed, cut pieces) mod n -- also for lines with trailing / empty fields
     SHARD_SEED = 47849374332489
-    for spec, d, nsh in ((b"2", 9, 5), (b"1,3", 9, 4), (b"2-", 32, 3), (b"-2", 44, 7), (b"2,4-", 9, 6)):
+    for spec, d, nsh in ((b"2", 9, 5), (b"1,3", 9, 4), (b"2-", 32, 3), (b"-2", 44, 7), (b"2,4-", 9, 6), (b"3,1", 9, 5), (b"2,1", 32, 4), (b"4-,1-2", 9, 3)):
         dl = bytes([d])
         rs = canonical(cut_parse(spec))
         batch = []
@@ -555,6 +596,25 @@ def main(argv):
                     {"op": "shard", "kind": "placement", "args": ["-f", spec.decode(), "-d", dl.decode("latin1"), "<%d outputs>" % nsh], "line_hex": hexs(l),
                      "impl_files": sorted(got.get(l, [])), "expected_file": h % nsh})
                 break
+
+    # defaults: without -f / -k the whole line is the key (and TAB the delimiter)
+    dflt = b"a\tb\na\tc\na\tb\na\tb\t\n \ta\tb\n"
+    st, so, se = run_tool([repo_bin("dedupe")], stdin=dflt, timeout=60)
+    c.count(("default", "dedupe"), bucket="tool/default-key")
+    c.cov["traces_validated_against_impl"] += 1
+    if st != 0 or so != b"a\tb\na\tc\na\tb\t\n \ta\tb\n":
+        c.violation("tool/default-key: dedupe without -f must use the whole line as the key: printed %r for %r (status %s)" % (so, dflt, st),
+                    {"op": "dedupe", "kind": "default-key", "args": [], "stdin_hex": hexs(dflt), "stdout_hex": hexs(so)})
+    st, so, se = run_tool([repo_bin("cache"), "cat"], stdin=dflt, timeout=60)
+    c.count(("default", "cache"), bucket="tool/default-key")
+    c.cov["traces_validated_against_impl"] += 1
+    if st != 0 or so != dflt:
+        c.violation("tool/default-key: cache without -k must use the whole line as the key: `cache cat` printed %r for %r (status %s)" % (so, dflt, st),
+                    {"op": "cache", "kind": "default-key", "args": ["cat"], "stdin_hex": hexs(dflt), "stdout_hex": hexs(so)})
+    st, so, se = run_tool([repo_bin("dedupe"), "-f", "2"], stdin=dflt, timeout=60)     # default delimiter TAB
+    if st != 0 or so != b"a\tb\na\tc\n \ta\tb\n":
+        c.violation("tool/default-delimiter: dedupe -f 2 (TAB by default) printed %r for %r (status %s)" % (so, dflt, st),
+                    {"op": "dedupe", "kind": "default-delimiter", "args": ["-f", "2"], "stdin_hex": hexs(dflt), "stdout_hex": hexs(so)})
 
     # malformed lists at the command line: an error, not a run
     for bad in (b"0", b"2-3-1", b" 1", b"4294967297", b"1,", b"", b"1-2,2-3", b"3-2", b"+1", b"a"):
